@@ -155,12 +155,19 @@ Proof.
   - destruct (ex =? got); [apply wf_upd_ers, W|apply wf_upd_swc, wf_upd_out, wf_upd_ers, W].
 Qed.
 
+(* only CALL and RETURN store pc+1 in a register *)
+Definition pc_needed (i : instr) (s : vm) : Prop :=
+  match i with I_CALL _ _ | I_RETURN _ _ => pc_ok s | _ => True end.
+
+Lemma pc_ok_needed i s : pc_ok s -> pc_needed i s.
+Proof. intros H. destruct i; cbn; auto. Qed.
+
 Theorem step_wf_spec mc mv i s :
-  wf_vm s -> is_bool mc -> is_bool mv -> valid_instr i = true -> pc_ok s ->
+  wf_vm s -> is_bool mc -> is_bool mv -> valid_instr i = true -> pc_needed i s ->
   wf_vm (step_with mc mv i s).
 Proof.
   intros W Hc Hv Hi Hp.
-  destruct i; cbn [valid_instr] in Hi; unfold reg_ok, in_range in Hi; cbn [step_with].
+  destruct i; cbn [valid_instr] in Hi; unfold reg_ok, in_range in Hi; cbn [step_with]; cbn [pc_needed] in Hp.
   - (* SETLO *) apply wf_next, wf_setreg; [exact W|unfold reg_ix; lia|apply mod_word].
   - (* SETHI *) apply wf_next, wf_setreg; [exact W|unfold reg_ix; lia|].
     unfold word, byte_of. pose proof (Z.mod_pos_bound v 256). pose proof (Z.mod_pos_bound (getreg s d) 256). lia.
